@@ -159,6 +159,18 @@ def hub_unit(kind, k, size):
         d = cpu_mods.address_descriptor.AddressDescriptor()
         d.paddress.physicaladdress = a
         lines = ['devices %s address %s size %d' % ([(hex(b), s) for b, s, _ in devs], hex(a), size)]
+        # device contents: a pattern in which a dropped or misplaced write is visible (the bytes a write should replace
+        # start as the complement of the written value)
+        for b, s, ram in devs:
+            ram.memory_array[:] = bytes(((j * 37 + 11) & 0xFF) for j in range(s))
+        if kind == 'write':
+            wv = (inputs.get('value', 0) & ((1 << (8 * size)) - 1)).to_bytes(size, 'little')
+            f0 = next((i for i, (b, s, _) in enumerate(devs) if b <= a < b + s), None)
+            if f0 is not None:
+                o0 = a - devs[f0][0]
+                for j in range(size):
+                    if o0 + j < devs[f0][1]:
+                        devs[f0][2].memory_array[o0 + j] = wv[j] ^ 0xFF
         before = [bytes(r.memory_array) for _, _, r in devs]
         fields0 = {k_: (id(v_), repr(v_)[:200]) for k_, v_ in vars(hub).items() if k_ != 'memories'}
         exc = None
